@@ -1,0 +1,19 @@
+//go:build verif
+
+package gocvss30
+
+// Verification hooks: compiled only with the build tag "verif".
+// They add read/construct access to the packed representation and to a few
+// unexported helpers; no existing code is changed.
+
+// VerifBytes returns the packed representation of c.
+func VerifBytes(c *CVSS30) [6]uint8 { return [6]uint8{c.u0, c.u1, c.u2, c.u3, c.u4, c.u5} }
+
+// VerifFromBytes builds an object from a packed representation (any bytes).
+func VerifFromBytes(b [6]uint8) *CVSS30 { return &CVSS30{u0: b[0], u1: b[1], u2: b[2], u3: b[3], u4: b[4], u5: b[5]} }
+
+// VerifLenVec exposes lenVec, the pre-computed length used by Vector.
+func VerifLenVec(c *CVSS30) int { return lenVec(c) }
+
+// VerifRoundup exposes roundup.
+func VerifRoundup(x float64) float64 { return roundup(x) }
